@@ -81,7 +81,7 @@ var Spec = &gen.Spec{
 	Prelude: prelude,
 	PerVM:   200,
 	Runs: func(c *core.Ctx) []gen.RunCfg {
-		b := bounds{nRand: 200, nRandBlk: 16, nSeq2: 1, nSeq3: 2, seqEvery: 4, nBase: 1}
+		b := bounds{nRand: 150, nRandBlk: 16, nSeq2: 1, nSeq3: 2, seqEvery: 6, nBase: 1}
 		if c.Thorough() {
 			b = bounds{nRand: 4000, nRandBlk: 32, nSeq2: 6, nSeq3: 10, seqEvery: 1, nBase: 2}
 		}
